@@ -479,6 +479,8 @@ class StateMachine(object):  # pylint: disable=too-many-public-methods
         """Send A-ABORT PDU (service-user source) and start (or restart)
         ARTIM timer.
         """
+        if getattr(self.primitive, 'pdu_type', None) != pdu.AAbortPDU.pdu_type:
+            self.primitive = pdu.AAbortPDU(source=0, reason_diag=0)
         self.dul_socket.sendall(self.primitive.encode())
         self.timer.restart()
         return States.STA_13
